@@ -272,7 +272,8 @@ CLAIMED['C16'] = dict(
          'call_native from any state with at most MAX_FRAME_SIZE frames push a frame only below the limit and otherwise raise the '
          'catchable stack-overflow error, so the call depth is bounded on every path, native callbacks included; C16.K3 op_inherit '
          'never accepts a builtin value class as superclass, which is what makes the unchecked receiver casts of the builtin '
-         'natives sound. Found and fixed F21 (recursion through native callbacks skipped the depth limit: host stack overflow) and '
+         'natives sound, and never hands the class being defined to Class::inherit as its own superclass (found and fixed F64: `class Object {}` '
+         'panicked). Found and fixed F21 (recursion through native callbacks skipped the depth limit: host stack overflow) and '
          'F14 (class L : List {}: abort / segfault); C16.K4 every native declared in laythe_lib (signature constants and `native!` '
          'declarations read from the current sources; about 75 of 123 decided, the rest listed as not encoded in the evidence) runs '
          'from MIR on arguments constrained only by its signature and receiver class: every unchecked cast is justified, to_num / '
@@ -314,7 +315,12 @@ CLAIMED['C15'] = dict(
          'peephole pass from an arbitrary counter keeps the u8 counter in range (found and fixed F54: 256 locals in a block '
          'panicked the compiler instead of printing the too-many-locals diagnostic). C15.K3 Compiler::child starts every nested '
          'function body outside any loop (found and fixed F51: `break` inside a function literal inside a loop compiled to a jump '
-         'out of the function and crashed the Vm). Found and fixed F13 (line 65536) and F12 (todo!() for > 65535 labels). Parser / '
+         'out of the function and crashed the Vm). C15.K4 Parser::function / lambda with every sub-parser an arbitrary Ok / Err answer: the loop '
+         'counter is restored on every path (found and fixed F62: a syntax error in a function signature inside a loop panicked the parser). '
+         'C15.K5 Resolver::for_ / catch with the sub-resolvers as events: the iterable / class is resolved before the variable is declared, the '
+         'order in which the compiler lowers them (found and fixed F63: `for x in x {}` and `catch e: e` panicked the compiler). C15.K1 also runs '
+         'the debug-profile apply_stack_effects on what the dead-code pass leaves of a loop behind a return (found and fixed F65: debug assertion '
+         'on a valid program). Found and fixed F13 (line 65536) and F12 (todo!() for > 65535 labels). Parser / '
          'resolver totality, recursion depth on deeply nested text and the interactive prompt surviving diagnostics are NOT decided '
          '(longer texts than the stated prefixes + K characters are outside the claim).',
     note='Trusted: rustc MIR printer, mirsym, models of the std character iterators and string slicing on the symbolic text '
